@@ -19,6 +19,7 @@ type ttlGen struct {
 	trig   bool
 	sb     strings.Builder
 	base   string            // "" = none: only absolute IRI references are written
+	aPos   int               // >= 0: position right after an 'a' written without white space
 	pfx    map[string]string // declared prefixes
 	pfxs   []string          // their names, in declaration order
 	nblank int
@@ -386,7 +387,12 @@ func (g *ttlGen) verb() string {
 	if g.r.Chance(1, 5) {
 		g.sb.WriteString("a")
 		g.use("a")
-		g.ws(true)
+		if g.r.Chance(1, 4) {
+			// the keyword needs no white space before '<', '[', '(' or a quote; decided once the object is written
+			g.aPos = g.sb.Len()
+		} else {
+			g.ws(true)
+		}
 		return "<" + rdfNS + "type>"
 	}
 	p := g.iri()
@@ -419,6 +425,15 @@ func (g *ttlGen) predicateObjectList(s string) {
 				g.ws(false)
 			}
 			o := g.object()
+			if g.aPos >= 0 {
+				if cur := g.sb.String(); g.aPos < len(cur) && strings.IndexByte("<[(\"'", cur[g.aPos]) >= 0 {
+					g.use("a-tight")
+				} else {
+					g.sb.Reset()
+					g.sb.WriteString(cur[:g.aPos] + " " + cur[g.aPos:])
+				}
+				g.aPos = -1
+			}
 			g.emit(s, p, o)
 		}
 	}
@@ -524,7 +539,7 @@ func genTurtleDoc(r *hx.Rand, trig bool, base string, maxStatements int) (doc st
 
 // genTurtleDocPre: with dirFirst all directives precede the first statement; preamble is that leading part of the text.
 func genTurtleDocPre(r *hx.Rand, trig bool, base string, maxStatements int, dirFirst bool) (doc string, want []hx.Q, feat map[string]int, preamble string) {
-	g := &ttlGen{r: r, trig: trig, base: base, pfx: map[string]string{}, labels: map[string]string{}, feat: map[string]int{}}
+	g := &ttlGen{r: r, trig: trig, base: base, aPos: -1, pfx: map[string]string{}, labels: map[string]string{}, feat: map[string]int{}}
 	n := 1 + r.Intn(maxStatements)
 	body := false
 	defer func() {
